@@ -30,6 +30,60 @@ type replayFile struct {
 	Stats      map[string]int         `json:"minimisation,omitempty"`
 }
 
+// annotate fills in the source position of every recorded preemption.
+func annotate(p *prepared, dec []decision) {
+	special := map[uint32]string{0xFFFFFFF0: "(operation begins)", 0xFFFFFFF1: "(between operations)", 0xFFFFFFF2: "(inside a user RenderFN callback)",
+		0xFFFFFFF3: "(waiting for a lock)", 0xFFFFFFF4: "(task ended)", 0xFFFFFFF6: "(lock released / about to be taken)", 0xFFFFFFF7: "(before an atomic operation)"}
+	for i := range dec {
+		d := &dec[i]
+		if d.Kind != 0 || d.Step == 0 {
+			continue
+		}
+		if s, ok := special[d.At]; ok {
+			d.Src = s
+		} else if int(d.At) < len(p.Instr.Sites) {
+			st := p.Instr.Sites[d.At]
+			d.Src = fmt.Sprintf("%s:%d", st.File, st.Line)
+		}
+	}
+}
+
+// describe prints a minimised execution in a form a developer can read.
+func describe(rf *replayFile) {
+	rows := opsOf(rf.Scenario)
+	sh, _ := rf.Scenario["shared"].([]interface{})
+	for i, s := range sh {
+		if m, ok := s.(map[string]interface{}); ok {
+			fmt.Printf("c14:     shared #%d = %v %.120q field=%v\n", i, m["kind"], fmt.Sprint(m["query"]), m["field"])
+		}
+	}
+	for t, row := range rows {
+		if len(row) == 0 {
+			continue
+		}
+		fmt.Printf("c14:     task %d:", t)
+		for _, op := range row {
+			arg := ""
+			if v, ok := jsonInt(op["shared"]); ok && v >= 0 {
+				arg = fmt.Sprintf("shared #%d", v)
+			} else if q, ok := op["query"].(string); ok {
+				arg = fmt.Sprintf("%.80q", q)
+			} else if pv, ok := op["priv"].(map[string]interface{}); ok {
+				arg = fmt.Sprintf("private %v %.60q", pv["kind"], fmt.Sprint(pv["query"]))
+			}
+			fmt.Printf(" %v(%s);", op["kind"], arg)
+		}
+		fmt.Println()
+	}
+	n := 0
+	for _, d := range rf.Decisions {
+		if d.Kind == 0 && d.Step > 0 && n < 12 {
+			fmt.Printf("c14:     step %d: switch to task %d, preempting at %s\n", d.Step, d.Task, d.Src)
+			n++
+		}
+	}
+}
+
 func writeJSON(path string, v interface{}) error {
 	b, err := json.MarshalIndent(v, "", " ")
 	if err != nil {
@@ -175,7 +229,9 @@ func report(o *options, p *prepared, f *finding, budgetS float64) string {
 			rf.RaceText = rr.Text
 		}
 	}
+	annotate(p, rf.Decisions)
 	writeJSON(path, rf)
+	describe(rf)
 	nOps := 0
 	if ts, ok := rf.Scenario["tasks"].([]interface{}); ok {
 		for _, t := range ts {
